@@ -108,6 +108,10 @@ FIXED = [
     ("C03", "C03/history-dependent:GopherProtocol/UMNDirHandler", "4de2aba",
      "a request for '<dir>/.' (or '/.'): accepted, listed empty (every child '<dir>/./x' is refused) and that empty listing saved "
      "as the directory cache of the real <dir>: every later client of <dir> got an empty menu until the cache expired (also C10)"),
+    ("C12", "C12/directory-lost:vanishes-after-stat+named.html:error-reply", "b0ad4cc",
+     "a child that is stat()ed successfully but cannot be opened (deleted in between, mode 000 under an unprivileged server, EIO) "
+     "and whose handler reads it to describe it (.html title, .html.tal, .zip, .gophermap): OSError from getentry() turned the "
+     "whole directory listing into an error reply"),
     ("C12", "C12/request-never-returns@base.py:open", "9f696ad",
      "a FIFO named like a healthy entry's sidecar ('alpha.txt.3d', 'gamma/.abstract') or like its .cap file ('.cap/alpha.txt'): "
      "open() never returns, every listing of the directory hangs"),
